@@ -21,6 +21,16 @@ type Scenario struct {
 	Pages   map[string]string `json:"pages,omitempty"`       // custom error page dir content (name -> template), used by services with ErrorPages
 	Params  map[string]int    `json:"params,omitempty"`      // property specific integers
 	Note    string            `json:"note,omitempty"`
+	// TaskHolds deschedule goroutines of the proxy itself (by task name prefix,
+	// e.g. "hc:new0:80"): fault "this goroutine does not run for a while".
+	TaskHolds []TaskHold `json:"task_holds,omitempty"`
+}
+
+// TaskHold: the first task whose name has the prefix and that parks at Hold.At
+// is held until Hold.For has been released Hold.N times (or Hold.Max passed).
+type TaskHold struct {
+	Task string `json:"task"`
+	Hold Hold   `json:"hold"`
 }
 
 type HCKnobs struct {
